@@ -45,6 +45,11 @@ def mutations(rng, approx_len, full):
     for pos, vals in ((9, (0, 2, 3, 4, 5, 9)), (10, (1,)), (11, (0, 2)), (12, (0, 2, 3, 4, 5, 255)), (13, (0, 1, 3)), (14, (1,)), (15, (0, 19, 21))):
         muts += ["set=%d:%d" % (pos, v) for v in vals]
     muts += ["app=00", "app=ff0102"]
+    # field edits of a genuine message: the length of each kind of part set to extreme and off-by-one values
+    for tag in (1, 2, 3, 4, 5):
+        for v in ("0000", "0001", "ffff", "fff8", "fff7", "8000", "0013", "0015", "001f", "0021"):
+            if full or rng.chance(1, 3) or v in ("ffff", "fff8"):
+                muts.append("tlvlen=%d:%s" % (tag, v))
     # degenerate signatures (all zero; S = 0 with R a point of small order), alone and under a key hash that names no trusted key
     ident = "01" + "00" * 31
     order2 = "ec" + "ff" * 30 + "7f"
@@ -165,10 +170,9 @@ def rotation_run(rng, name, seconds=500):
     return Script(name, ops, {"suite": "init"})
 
 
-def c06_scripts(rng, thorough):
-    """every pair of subsets of {plain, aes128, aes256, chacha} x orderings x speed grid with ties, zero, huge; both initiators"""
+def c06_tie_scripts(rng, thorough):
+    """ties at the top between every pair of ciphers, under every ordering of both lists and both initiator assignments"""
     names = ["aes128", "aes256", "chacha"]
-    grid = [0.0, 1.0, 100.0, 100.0, 500.0, 500.0, 3.0e38, 1.0e-40]
     n = 0
     # ties at the top between every pair of ciphers, under every ordering of both lists and both initiator assignments
     for c1, c2 in itertools.combinations(names, 2):
@@ -192,6 +196,15 @@ def c06_scripts(rng, thorough):
                             "isend a 0 aa", "ideliver-from a 0 b"]
                     n += 1
                     yield Script("tie-%d" % n, ops, {"suite": "init"})
+
+
+def c06_scripts(rng, thorough):
+    """every pair of subsets of {plain, aes128, aes256, chacha} x orderings x speed grid with ties, zero, huge; both initiators"""
+    names = ["aes128", "aes256", "chacha"]
+    grid = [0.0, 1.0, 100.0, 100.0, 500.0, 500.0, 3.0e38, 1.0e-40]
+    n = 0
+    for s in c06_tie_scripts(rng, thorough):
+        yield s
     subsets = []
     for r in range(0, 4):
         subsets += [list(c) for c in itertools.combinations(names, r)]
